@@ -749,6 +749,23 @@ class PayloadError(Exception):
         return self.__dict__["payload"][k]
 
 
+class FrozenError(Exception):
+    """An application error that implements the documented `coerce_value` protocol but cannot be annotated in place
+    (what a frozen dataclass exception does)."""
+
+    def __init__(self, msg):
+        super().__init__(msg)
+        object.__setattr__(self, "_frozen", True)
+
+    def __setattr__(self, name, value):
+        if getattr(self, "_frozen", False) and not name.startswith("__"):
+            raise AttributeError("cannot assign to field %r" % name)
+        object.__setattr__(self, name, value)
+
+    def coerce_value(self, *_a, path=None, locations=None, **_k):
+        return {"message": str(self), "path": path, "locations": [loc.collect_value() for loc in (locations or [])]}
+
+
 class PathCarryingError(Exception):
     """A non-library exception that happens to have `path` / `locations` attributes of its own
     (like ImportError.path or jsonschema's ValidationError.path)."""
